@@ -14,4 +14,7 @@ void x__ZSt9terminatev(void) { __VERIFIER_trap(); }
 /* libstdc++ std::string helpers reached when a tao::pegtl::position (std::string source) is built from a const char* source */
 void x__ZSt19__throw_logic_errorPKc(u8 *msg) { __VERIFIER_trap(); }
 void x__ZSt20__throw_length_errorPKc(u8 *msg) { __VERIFIER_trap(); }
-u8 *x__ZNSt7__cxx1112basic_stringIcSt11char_traitsIcESaIcEE9_M_createERmm(void *self, u64 *cap, u64 old) { u8 *p = malloc(*cap + 1); __VERIFIER_assume_nonnull(p); return p; }
+#ifndef VF_STRING_SELF_T   /* units in which std::string is a complete type declare the parameter as a struct pointer: the harness sets this */
+#define VF_STRING_SELF_T void
+#endif
+u8 *x__ZNSt7__cxx1112basic_stringIcSt11char_traitsIcESaIcEE9_M_createERmm(VF_STRING_SELF_T *self, u64 *cap, u64 old) { u8 *p = malloc(*cap + 1); __VERIFIER_assume_nonnull(p); return p; }
